@@ -31,7 +31,18 @@ def cases(seed, tier):
         out.append({"group": "extra", "kind": ["nonlinear_loss", "chained"][i % 2], "seed": sub_seed(seed, "c13ls", i), "n": rng.choice([3, 7, 20]),
                     "holder": "em", "fam": rng.choice(["expdecay", "sinamp", "rational"]), "limits": rng.choice(["t0g", "t1g", "t0g", "t0"]),
                     "loss": rng.choice(["square", "exp", "product"]), "late_rebind": True})
+    # history: a backward pass in which the integrand raises (at a seeded evaluation), caught; the same object used again
+    na = 36 if tier == "quick" else 360
+    for i in range(na):
+        rng = random.Random(sub_seed(seed, "c13a", i))
+        out.append({"group": "extra", "kind": "nonlinear_loss", "seed": sub_seed(seed, "c13as", i), "n": rng.choice([3, 7, 20]),
+                    "holder": ["em", "nn"][i % 2], "fam": rng.choice(["expdecay", "sinamp", "rational"]), "limits": rng.choice(["t0g", "t1g", "num", "t0"]),
+                    "loss": rng.choice(["square", "exp", "product"]), "abort_first": True, "kfrac": rng.random(), "cg": rng.random() < 0.5})
     return out
+
+
+class _Injected(Exception):
+    pass
 
 
 def _rule(n, xl, xu):
@@ -63,7 +74,14 @@ def run_case(desc):
     obs = Obs(desc)
     tg = torch.Generator().manual_seed(desc["seed"])
     kind, fam, n = desc["kind"], desc["fam"], desc["n"]
-    f = _family(fam)
+    f0 = _family(fam)
+    state = {"n": 0, "raise_at": None}
+
+    def f(x, p_, q_):
+        state["n"] += 1
+        if state["raise_at"] is not None and state["n"] == state["raise_at"]:
+            raise _Injected("injected failure at integrand evaluation %d" % state["n"])
+        return f0(x, p_, q_)
     a = (0.5 + torch.rand(2, generator=tg, dtype=DT)).requires_grad_()
     b = (0.5 + torch.rand(2, generator=tg, dtype=DT)).requires_grad_()
     xlv, xuv = -0.2 + 0.3 * float(torch.rand((), generator=tg)), 0.8 + 0.5 * float(torch.rand((), generator=tg))
@@ -116,9 +134,32 @@ def run_case(desc):
                 return [prefix + "p", prefix + "held[0]"]
         e = E()
         fcn, params = e.forward, ()
-    mech = "%s:%s:%s:%s%s" % (kind, holder, lim, desc["loss"], ":late_rebind" if desc.get("late_rebind") else "")
+    mech = "%s:%s:%s:%s%s%s" % (kind, holder, lim, desc["loss"], ":late_rebind" if desc.get("late_rebind") else "", ":after_abort" if desc.get("abort_first") else "")
     leaves = [a, b] + limleaves
     names = ["a", "b"] + (["xl", "xu"] if limleaves else [])
+    if desc.get("abort_first"):
+        # clean run to count the evaluations, then a run whose backward raises at a seeded evaluation (caught), then the monitored run below
+        try:
+            state["n"] = 0
+            y_ = quad(fcn, xl, xu, params=params, n=n)
+            m1 = state["n"]
+            torch.autograd.grad(_loss(desc["loss"], y_.reshape(-1)), leaves, create_graph=bool(desc.get("cg")), retain_graph=True, allow_unused=True)
+            m2 = state["n"]
+            if m2 > m1:
+                state["n"], state["raise_at"] = 0, m1 + 1 + int(desc["kfrac"] * (m2 - m1 - 1e-9))
+                try:
+                    y_ = quad(fcn, xl, xu, params=params, n=n)
+                    torch.autograd.grad(_loss(desc["loss"], y_.reshape(-1)), leaves, create_graph=bool(desc.get("cg")), retain_graph=True, allow_unused=True)
+                except _Injected:
+                    obs.count("extra_abort_injected")
+                except Exception as e_:
+                    obs.note(wrapped="%s: %s" % (type(e_).__name__, str(e_)[:80]))
+                    obs.count("extra_abort_injected")
+                state["raise_at"] = None
+        except Exception as e:
+            obs.exc_violation("abort_clean_run:" + mech, e)
+            obs.nontrivial = True
+            return obs.result()
     try:
         y = quad(fcn, xl, xu, params=params, n=n)
         L = _loss(desc["loss"], y.reshape(-1))
